@@ -6,7 +6,8 @@ driver ops of component `xpath` (C08).  The driver is stateless, so every evalua
 
 * `schema <yang-hex>+`                              -> `ok`      (the model needs no schema: the dump is the XML view)
 * `tree <fmt> <data-hex> <dump-hex>`                -> `ok <number of elements>`
-* `eval  <ctx> <expr-hex> <ast-hex> <dump-hex>`     -> typed result, all libyang switches on
+* `eval  <ctx> <expr-hex> <ast-hex> <dump-hex> [<mask>]` -> typed result; mask = the `Quirks` switches in force (default: all),
+  i.e. the deviations of libyang recorded as known findings and not yet repaired
 * `find  <ctx> <expr-hex> <ast-hex> <dump-hex>`     -> node-set or `err NotNodeSet`
 * `evalq <mask> <ctx> <expr-hex> <ast-hex> <dump-hex>` -> typed result with the given `Quirks` mask (0 = XPath 1.0 REC)
 -/
@@ -192,6 +193,8 @@ def handle (op : String) (args : List String) : String :=
     | none => "err BadHex"
   | "eval", [ctx, _, astH, dumpH] => run allMask ctx astH dumpH false
   | "find", [ctx, _, astH, dumpH] => run allMask ctx astH dumpH true
+  | "eval", [ctx, _, astH, dumpH, mask] => run (mask.toNat?.getD allMask) ctx astH dumpH false
+  | "find", [ctx, _, astH, dumpH, mask] => run (mask.toNat?.getD allMask) ctx astH dumpH true
   | "evalq", [mask, ctx, _, astH, dumpH] =>
     match mask.toNat? with
     | some m => run m ctx astH dumpH false
